@@ -1007,7 +1007,11 @@ class Gen:
         m = c.n if not bad else max(0, c.n + r.choice([-1, 1]))
         vecs = [i for i in infos if not i.is_table and not i.weird and i.n == m]
         held = [k for k in sorted(world.inputs) if isinstance(world.inputs[k], (list, tuple)) and len(world.inputs[k]) == m]
-        if held and r.random() < 0.35:
+        if bad and c.n >= 1 and r.random() < 0.3:
+            # a list of len(table) vectors whose own length differs: its outer length looks right
+            inner = max(1, c.n + r.choice([-1, 1, 2]))
+            val = {"k": "lov", "v": [V.enc_list(self.vals_of("int", inner, p_none=0.0)) for _ in range(c.n)]}
+        elif held and r.random() < 0.35:
             val = {"k": "inp", "inp": r.choice(held)}       # a plain list / tuple the program keeps holding
         elif vecs and r.random() < self.k.get("p_donor", 0.6):
             d = self.pick(vecs)
